@@ -102,7 +102,7 @@ pub(crate) fn config_should_collect_formula() {
 /// adjust, C15 threshold clauses.  Pre: I8, bytes < 2^62, 0 <= pct <= 1.
 /// The doubling `loop` is unwound (<= 58 iterations, unwinding assertion); the halving `while`
 /// carries an in-place Kani loop invariant (`adjust_inv`).
-//@ C15 | complete | deciding | feat=full,auto | fn=Config::adjust | timeout=1500
+//@ C15 | complete | deciding | feat=full_lc,auto_lc | fn=Config::adjust | timeout=1500
 #[kani::proof]
 #[kani::unwind(60)]
 pub(crate) fn config_adjust_contract() {
